@@ -210,6 +210,9 @@ def corpus(depth, rng, limit):
         for n in (1, 2, 3):
             for _ in range(limit // 6):
                 new.append([rng.choice(prev) for _ in range(n)])
+                if n >= 2 and rng.random() < 0.3:
+                    c = rng.choice([x for x in prev if isinstance(x, (list, dict))] or [[0]])
+                    new.append([c, c] + [rng.choice(prev) for _ in range(n - 2)])
                 new.append({k: rng.choice(prev) for k in rng.sample(["b", "a", "", "é", "Z", "k k"], n)})
         level.append(new)
     return [v for lv in level for v in lv]
@@ -219,7 +222,14 @@ def build_value(v, rng, name, stmts):
     """Append statements that build value v along a random construction history; returns an expression for it."""
     if not isinstance(v, (list, dict)):
         return A.lit(v)
-    how = rng.randrange(5)
+    how = rng.randrange(6)
+    if how == 5 and isinstance(v, list) and len(v) >= 2 and v[0] == v[1] and isinstance(v[0], (list, dict)):
+        # the same container object placed twice (aliasing must not show in the rendering)
+        stmts.append(A.Declare(V(name + "s"), build_value(v[0], rng, name + "s0", stmts)))
+        rest = [build_value(x, rng, name + "r%d" % i, stmts) for i, x in enumerate(v[2:])]
+        return A.lst(V(name + "s"), V(name + "s"), *rest)
+    if how == 5:
+        how = 0
     if isinstance(v, list):
         elems = [build_value(x, rng, name + "e%d" % i, stmts) for i, x in enumerate(v)]
         if how == 0 or not v:
